@@ -105,7 +105,7 @@ impl Check for C09 {
     fn meta(&self) -> Meta {
         Meta {
             level: "exploration",
-            rule: "histories of 0-4 accepted requests, each ending in one of {normal finish, resolver dropped before header resolution, FIN before HEADERS, client RESET before / after HEADERS, malformed headers, oversized headers, split into halves dropped at different times, held by the application until released, never resolving until released} combined with the client's GOAWAY written at a drawn script position; all interleavings and chunkings drawn; judged at two exact quiescence points (before and after the held requests are released); non-trivial = GOAWAY delivered and >= 1 request handed out; distinct = distinct schedule signatures",
+            rule: "histories of 0-4 accepted requests, each ending in one of {normal finish, resolver dropped before header resolution, FIN before HEADERS, client RESET before / after HEADERS, malformed headers, oversized headers, split into halves dropped at different times, held by the application until released, never resolving until released} combined with the client's GOAWAY written at a drawn script position; in one run in three the requests are written in a drawn order and surface in arrival order (stream 4 may be accepted before stream 0); all interleavings and chunkings drawn; judged at two exact quiescence points (before and after the held requests are released); non-trivial = GOAWAY delivered and >= 1 request handed out; distinct = distinct schedule signatures",
             real: &["h3 server Connection (accept / request completion accounting)", "RequestResolver, server RequestStream and its halves, RequestEnd notification channel"],
             stub: &["QUIC transport (SimQuic)", "executor (simexec)", "peer (script)", "application (drawn handling of each request; handle lifetimes tracked by drop guards)"],
             assumptions: &["a request has ended when the application holds no handle of it any more (resolver, stream or either half), whether by drop or by a failing call that consumed it"],
@@ -118,8 +118,21 @@ impl Check for C09 {
         let all = [Ending::Normal, Ending::DropResolver, Ending::FinFirst, Ending::ResetBeforeHeaders, Ending::ResetAfterHeaders, Ending::Malformed, Ending::Oversized, Ending::SplitDrop, Ending::Hold, Ending::NeverResolves, Ending::Normal];
         let endings: Vec<Ending> = (0..k).map(|_| pick(&all).clone()).collect();
         let mut cfg = NetCfg::drawn();
-        cfg.in_order_accept = true;
+        // one run in three: streams surface in the order their first bytes arrive (legal for an h3::quic
+        // backend) and the peer writes its requests in a drawn order, so stream 4 may be accepted before 0
+        let out_of_order = draw(3) == 2;
+        cfg.in_order_accept = !out_of_order;
         let net = Net::new(cfg);
+        let mut order: Vec<usize> = (0..k).collect();
+        if out_of_order {
+            for i in (1..k).rev() {
+                let j = draw_usize(i + 1);
+                order.swap(i, j);
+            }
+            if order.windows(2).any(|w| w[0] > w[1]) {
+                obs::count("probe.requests_written_out_of_order");
+            }
+        }
         // peer script: control stream with SETTINGS now; GOAWAY and the requests at drawn positions
         let cid = {
             let mut n = net.lock().unwrap();
@@ -139,15 +152,16 @@ impl Check for C09 {
             let net = net.clone();
             let endings = endings.clone();
             ex.spawn("peer", async move {
-                for i in 0..=k {
-                    if i == goaway_pos {
+                for pos in 0..=k {
+                    let i = if pos < k { order[pos] } else { k };
+                    if pos == goaway_pos {
                         for _ in 0..draw(6) {
                             exec::yield_now().await;
                         }
                         net.lock().unwrap().raw_write(cid, CLIENT, &frames::goaway(0));
                         obs::ev("peer.goaway", 0, 0);
                     }
-                    if i < k {
+                    if pos < k {
                         for _ in 0..draw(6) {
                             exec::yield_now().await;
                         }
